@@ -1,7 +1,9 @@
 ------------------------------ MODULE MC_Wire ------------------------------
 (***************************************************************************)
-(* Case enumeration for Wire.tla.  Every initial state is one case         *)
-(*   c = [m |-> message descriptor, mal |-> malformed class]               *)
+(* Case enumeration for Wire.tla.  Initial states are GROUPS of cases (one  *)
+(* per validator count, per block of slice data lengths, ...), so that the *)
+(* TLC workers expand them in parallel; every successor is one case        *)
+(*   c = [g |-> "case", m |-> message descriptor, mal |-> malformed class] *)
 (* TLC checks the invariants below on every case (all validator counts,    *)
 (* all slice payload sizes, all malformed classes) and prints one CASE     *)
 (* line (descriptor, expected sizes, byte edits, expected verdict) for the *)
@@ -21,8 +23,8 @@ CONSTANTS
 VARIABLE c
 vars == <<c>>
 
-Shapes == {"first", "last", "all", "even"}
-PairShapes == {<<"first", "last">>, <<"all", "all">>, <<"even", "last">>, <<"last", "even">>}
+Shapes == {"first", "last", "all", "even", "rand"}
+PairShapes == {<<"first", "last">>, <<"all", "all">>, <<"even", "last">>, <<"last", "even">>, <<"rand", "rand">>}
 
 Cert(k, n, a, b) == [t |-> "cert", k |-> k, n |-> n, a |-> a, b |-> b]
 CertDescs(n) ==
@@ -97,33 +99,49 @@ CaseRec(cs) ==
 Out(cs) == Emit(cs) => PrintT(<<"CASE", ToJson(CaseRec(cs))>>)
 
 \* (no large sets are built: TLC enumerates the nested quantifiers)
-BaseCase(m) == c = [m |-> m, mal |-> NoMal] /\ Out(c)
-MutCases(m) == \E mu \in Muts(m) : c = [m |-> m, mal |-> mu] /\ Out(c)
+NoMsg == [t |-> "group"]
+Group(tag, p) == [g |-> tag, p |-> p, m |-> NoMsg, mal |-> NoMal]
+IsCase == c.g = "case"
+Case(m, mal) == c' = [g |-> "case", p |-> <<>>, m |-> m, mal |-> mal] /\ Out(c')
+BaseCase(m) == Case(m, NoMal)
+MutCases(m) == \E mu \in Muts(m) : Case(m, mu)
 
-InitShred ==
-  \E sh \in Shredders, parent \in BOOLEAN : \E d \in 0..MaxDlen(sh, parent) :
-    IF Rich(sh, d, parent)
-    THEN \E e \in Ends : \E j \in (IF d \in AllJDlens THEN 0..(TotalShreds - 1) ELSE JSet(sh)) :
-           \/ BaseCase(AsMsg(Shred(sh, d, parent, e[1], e[2], j)))
-           \/ /\ IsBoundary(sh, d, parent) /\ j \in {0, TotalShreds - 1}
-              /\ BaseCase(Rresp("shred", "shred", e[1], j, 0, Shred(sh, d, parent, e[1], e[2], j)))
-    ELSE AllDlens /\ BaseCase(AsMsg(Shred(sh, d, parent, 0, FALSE, 0)))
-InitShredMal ==
+DlenBlock == 512
+NextShred(sh, parent, blk) ==
+  \E d \in (blk * DlenBlock)..((blk + 1) * DlenBlock - 1) :
+    /\ d <= MaxDlen(sh, parent)
+    /\ LET s0 == Shred(sh, d, parent, 0, FALSE, 0) IN
+       IF EmitShred(s0)
+       THEN \E e \in Ends : \E j \in (IF d \in AllJDlens THEN 0..(TotalShreds - 1) ELSE JSet(sh)) :
+              \/ BaseCase(AsMsg(Shred(sh, d, parent, e[1], e[2], j)))
+              \/ /\ IsBoundary(sh, d, parent) /\ j \in {0, TotalShreds - 1}
+                 /\ BaseCase(Rresp("shred", "shred", e[1], j, 0, Shred(sh, d, parent, e[1], e[2], j)))
+       ELSE /\ AllDlens \/ IsBoundary(sh, d, parent)       \* checked, not replayed
+            /\ \/ BaseCase(AsMsg(s0))
+               \/ BaseCase(Rresp("shred", "shred", 0, 0, 0, s0))
+NextShredMal ==
   \E sh \in Shredders : \E d \in {0, MaxDlen(sh, FALSE)} : \E e \in Ends :
     MutCases(AsMsg(Shred(sh, d, FALSE, e[1], e[2], IF e[2] THEN TotalShreds - 1 ELSE 0)))
 
 Init ==
-  \/ \E m \in VoteDescs : BaseCase(m) \/ MutCases(m)
-  \/ \E n \in CertNs : \E m \in CertDescs(n) : BaseCase(m)
-  \/ \E n \in MalNs : \E m \in CertMalDescs(n) : MutCases(m)
-  \/ InitShred
-  \/ InitShredMal
-  \/ \E m \in RreqDescs : BaseCase(m) \/ MutCases(m)
-  \/ \E m \in RrespSmallDescs : BaseCase(m)
-  \/ \E m \in RrespMalDescs : MutCases(m)
-  \/ \E l \in 0..MaxTxSize : BaseCase([t |-> "tx", len |-> l])
-  \/ \E l \in TxMalLens : MutCases([t |-> "tx", len |-> l])
-Next == UNCHANGED c
+  \/ c \in {Group(t, <<>>) : t \in {"vote", "shredmal", "rreq", "rresp", "rrespmal", "tx"}}
+  \/ \E n \in CertNs : c = Group("cert", <<n>>)
+  \/ \E n \in MalNs : c = Group("certmal", <<n>>)
+  \/ \E sh \in Shredders, parent \in BOOLEAN, blk \in 0..(MaxDataPerSlice \div DlenBlock) :
+       c = Group("shred", <<sh, parent, blk>>)
+
+Next ==
+  CASE c.g = "vote" -> \E m \in VoteDescs : BaseCase(m) \/ MutCases(m)
+    [] c.g = "cert" -> \E m \in CertDescs(c.p[1]) : BaseCase(m)
+    [] c.g = "certmal" -> \E m \in CertMalDescs(c.p[1]) : MutCases(m)
+    [] c.g = "shred" -> NextShred(c.p[1], c.p[2], c.p[3])
+    [] c.g = "shredmal" -> NextShredMal
+    [] c.g = "rreq" -> \E m \in RreqDescs : BaseCase(m) \/ MutCases(m)
+    [] c.g = "rresp" -> \E m \in RrespSmallDescs : BaseCase(m)
+    [] c.g = "rrespmal" -> \E m \in RrespMalDescs : MutCases(m)
+    [] c.g = "tx" -> \/ \E l \in 0..MaxTxSize : BaseCase([t |-> "tx", len |-> l])
+                     \/ \E l \in TxMalLens : MutCases([t |-> "tx", len |-> l])
+    [] OTHER -> FALSE
 
 -----------------------------------------------------------------------------
 (* invariants: the property on the specification *)
@@ -137,24 +155,24 @@ NetBytes(ops) ==
   IN S(Len(ops))
 
 \* every message a correct node emits is one of the enumerated well-formed descriptors
-AllWellFormed == WellFormed(c.m)
+AllWellFormed == IsCase => WellFormed(c.m)
 \* ... and fits one datagram, for every validator count and every slice size
-FitsDatagram == c.mal = NoMal => Size(c.m) <= MTU
+FitsDatagram == IsCase /\ c.mal = NoMal => Size(c.m) <= MTU
 \* well-formed encodings decode, and re-encode to themselves
-RoundTripInv == c.mal = NoMal => RoundTrip(c.m)
+RoundTripInv == IsCase /\ c.mal = NoMal => RoundTrip(c.m)
 \* trailing bytes, out-of-range indices / tags, oversized bitmasks are rejected
-StrictRejected == Strict(c.mal) => ~Accepts(ME)
+StrictRejected == IsCase /\ Strict(c.mal) => ~Accepts(ME)
 \* whatever is accepted re-encodes to a fixed point of decode->encode with the same value
-NormalFormInv == NormalForm(ME)
+NormalFormInv == IsCase => NormalForm(ME)
 \* the class is applicable and its byte edits change the length as the abstract defect does
 MalConsistent ==
-  /\ c.mal = NoMal \/ c.mal \in Muts(c.m)
-  /\ ESize(ME) = Size(c.m) + NetBytes(Mutate(Layout(c.m), c.mal).ops)
+  IsCase => /\ c.mal = NoMal \/ c.mal \in Muts(c.m)
+            /\ ESize(ME) = Size(c.m) + NetBytes(Mutate(Layout(c.m), c.mal).ops)
 \* re-encoding never grows, and an accepted encoding of a well-formed message fits too
-ReEncShrinks == Accepts(ME) => ESize(ReEnc(ME)) <= ESize(ME)
+ReEncShrinks == IsCase /\ Accepts(ME) => ESize(ReEnc(ME)) <= ESize(ME)
 
 \* vacuity witnesses (must be violated)
-W_MaxCert == ~(c.m.t = "cert" /\ c.m.k = "nf" /\ c.m.n = MaxSigners /\ c.m.a # "none" /\ c.m.b # "none")
-W_MaxShred == ~(c.m.t = "rresp" /\ c.m.k = "shred" /\ Size(c.m) >= 1389)
-W_GarbageAccepted == ~(c.mal.cls = "garbage_live" /\ Accepts(ME))
+W_MaxCert == ~(IsCase /\ c.m.t = "cert" /\ c.m.k = "nf" /\ c.m.n = MaxSigners /\ c.m.a # "none" /\ c.m.b # "none")
+W_MaxShred == ~(IsCase /\ c.m.t = "rresp" /\ c.m.k = "shred" /\ Size(c.m) >= 1389)
+W_GarbageAccepted == ~(IsCase /\ c.mal.cls = "garbage_live" /\ Accepts(ME))
 =============================================================================
